@@ -10,6 +10,12 @@ import (
 
 func (e *Exec) clockRead() *Term {
 	e.abandon("clock read")
+	if e.x.params["cclock"] == 1 && e.now.IsConst() {
+		// concrete clock (harness parameter): every reading is one millisecond after the previous instant;
+		// timers then fire in the order of their concrete deadlines. Used where timing is not the subject.
+		e.now = IntC(int64(e.now.val) + 1000000)
+		return e.now
+	}
 	t := e.fresh("clock", 64)
 	e.assume(BVCmp("bvsle", e.now, t))
 	e.assume(BVCmp("bvslt", IntC(0), t))
